@@ -304,7 +304,9 @@ func genDiff(t *rapid.T) Script {
 			s.Stack = append(s.Stack, stack.Layer{Kind: "debug"})
 		}
 	}
-	cfg := hist.Config{MaxOps: 30, ValidRepos: 3, Uploads: true, Mismatch: true, BadManifests: true, Retype: true,
+	// (re-typing the bytes of a tagged manifest makes ocimem's own ResolveTag and GetTag disagree
+	// on the media type - a gray zone that C02 handles in its model; it is not generated here)
+	cfg := hist.Config{MaxOps: 30, ValidRepos: 3, Uploads: true, Mismatch: true, BadManifests: true, Retype: false,
 		Deletes: true, Lists: true, NoCancel: true, NoWrongOffset: true, MaxSmall: 40,
 		RepoPool: []string{"foo", "foo/bar", "a/blobs/uploads", "manifests/x/tags", "b", "x1/referrers", "v2/list", "tags/list/blobs", "uploads"}}
 	if rapid.IntRange(0, 3).Draw(t, "bigBlobs") == 0 {
